@@ -489,7 +489,7 @@ func (g *structGen) genStruct(depth int) (desc.T, desc.V) {
 
 // containerField draws a nested struct in one of the supported wrappers.
 func (g *structGen) containerField(name string, depth int) (desc.F, desc.V) {
-	shape := rapid.SampledFrom([]string{"struct", "ptr", "ptr", "slice", "sliceptr", "array", "map", "mapptr", "mapint", "ptrptr", "sliceptrptr", "mapptrptr", "arrayptrptr", "mapfloat"}).Draw(g.t, "shape")
+	shape := rapid.SampledFrom([]string{"struct", "ptr", "ptr", "slice", "sliceptr", "array", "map", "mapptr", "mapint", "ptrptr", "sliceptrptr", "mapptrptr", "arrayptrptr", "mapfloat", "maparr", "mapiface"}).Draw(g.t, "shape")
 	inner, _ := g.genStruct(depth + 1)
 	// values are drawn per element below, against the same inner type: rules of
 	// the inner type were drawn relative to the first value only, which keeps
@@ -593,6 +593,12 @@ func (g *structGen) containerField(name string, depth int) (desc.F, desc.V) {
 		if shape == "mapfloat" {
 			key = desc.Scalar("float64") // float keys: one of them may be NaN (a legal key that cannot be looked up)
 		}
+		if shape == "maparr" {
+			key = desc.Array(2, desc.Scalar("int")) // unnamed composite key types: rendered as fmt does
+		}
+		if shape == "mapiface" {
+			key = desc.Scalar("iface")
+		}
 		ty = desc.Map(key, elem)
 		v = desc.V{Nil: n < 0}
 		for i := 0; i < n; i++ {
@@ -600,6 +606,8 @@ func (g *structGen) containerField(name string, depth int) (desc.F, desc.V) {
 				v.K = append(v.K, desc.V{I: int64(i*7 + 1)})
 			} else if shape == "mapfloat" {
 				v.K = append(v.K, []desc.V{{F: 1.5}, {NaN: true}, {F: -2}}[i%3])
+			} else if shape == "maparr" || shape == "mapiface" {
+				v.K = append(v.K, oddKey(key, i))
 			} else {
 				v.K = append(v.K, desc.Str(mapKeyName(i)))
 			}
@@ -627,6 +635,19 @@ func (g *structGen) containerField(name string, depth int) (desc.F, desc.V) {
 		}
 	}
 	return f, v
+}
+
+// oddKey is the i-th key of a map with an array or interface key type.
+func oddKey(key desc.T, i int) desc.V {
+	if key.K == "array" {
+		return desc.V{E: []desc.V{{I: int64(i)}, {I: int64(i * 3)}}}
+	}
+	if i%2 == 0 {
+		dt := desc.Scalar("string")
+		return desc.V{DT: &dt, E: []desc.V{desc.Str(fmt.Sprintf("ik%d", i))}}
+	}
+	dt := desc.Scalar("int")
+	return desc.V{DT: &dt, E: []desc.V{{I: int64(i + 40)}}}
 }
 
 // genValueFor draws a value for an already synthesised struct type (used for
@@ -666,6 +687,8 @@ func (g *structGen) genValueFor(ty desc.T, depth int) desc.V {
 				v.K = append(v.K, desc.Str(mapKeyName(i)))
 			} else if ty.Key.K == "float64" {
 				v.K = append(v.K, []desc.V{{F: 1.5}, {NaN: true}, {F: -2}}[i%3])
+			} else if ty.Key.K == "array" || ty.Key.K == "iface" {
+				v.K = append(v.K, oddKey(*ty.Key, i))
 			} else {
 				v.K = append(v.K, desc.V{I: int64(i*7 + 1)})
 			}
